@@ -206,6 +206,11 @@ func (Precompile).Delegate
     // them), and the write-back at commit stores the cached balance of every account the transaction made dirty
     // FINDING F5: no mirror when the signer delegates through a calling contract (caller != delegator == origin)
     ensures c02_mirrored: result.1 == nil ==> sdb_delta == upd(old(sdb_delta), del, old(sdb_delta)[del] - amt)
+    // ---- C05: a Cosmos-side change made by a successful precompile call must be undone when the StateDB is reverted to a snapshot taken
+    // before it. Reverting runs the journal entries appended since; their types are a closed set (x/evm/statedb/journal.go) and each
+    // one's Revert is proved (C05, journal part) to write nothing outside the StateDB, so the change is undoable only if none was made.
+    // FINDING F6: every state-changing method fails this (no journal entry records Cosmos-side effects)
+    ensures c05_undoable: result.1 == nil ==> cstate == old(cstate)
 
 func (Precompile).Undelegate
     requires wf: contract != nil && method != nil && isdyn(stateDB, *SDB) && dyn(stateDB, *SDB) != nil && p.stakingKeeper.Keeper != nil && ctx_height(ctx) >= 0
